@@ -95,8 +95,22 @@ def check(report, tier, seed):
         r = c09.inject(rng, g.build())
         if r is None or r[1] is None:
             continue
+        lines_r = list(r[0])
+        # several faults at once, and single statements with several offending names: which of them
+        # is reported must not depend on the hash order either
+        for _ in range(rng.choice([0, 0, 1, 2])):
+            r2 = c09.inject(rng, "\n".join(lines_r) + "\n")
+            if r2 is not None and r2[1] is not None:
+                lines_r = list(r2[0])
+        ws = [m.group(1) for l in lines_r for m in [re.match(r"^wire (\w+) :", l)] if m]
+        many = rng.sample(ws, min(len(ws), rng.randint(2, 4))) + rng.sample(["pc", "i10bytes", "P_pc", "zz7", "zz8", "Zz9", "stat_aok"], rng.randint(1, 3))
+        rng.shuffle(many)
+        extra = rng.choice([None, "const KK8 = %s;" % " + ".join(many), "register vV { zr : 64 = %s; }\nv_zr = V_zr;" % " ^ ".join(many),
+                            "wire zz_m : 64;\nzz_m = %s;" % " + ".join(n for n in many if n.lower().startswith("z") or n == "stat_aok")])
+        if extra:
+            lines_r.insert(rng.randint(0, len(lines_r)), extra)
         for rep_i in range(k):
-            rej["j%d_%d" % (i, rep_i)] = {"hcl": "\n".join(r[0]) + "\n"}
+            rej["j%d_%d" % (i, rep_i)] = {"hcl": "\n".join(lines_r) + "\n"}
     verdicts, bstats = buildcheck.run_build_cases(report, rej, key_prefix="determinism-reject")
     groups = collections.defaultdict(set)
     for cid, v in verdicts.items():
@@ -111,6 +125,6 @@ def check(report, tier, seed):
     report.coverage["rule"] = ("%d programs x 6 output modes x %d processes of the real binary (fresh hash keys each): exit status equal, stdout byte-identical in "
                                "default/-q/-t, equal as per-cycle line multisets under -d / --trace-assignments; each program also with statements shuffled and with "
                                "wires/constants consistently renamed: per-cycle values (renamed back), registers, memory and status equal; rejected programs "
-                               "compiled %d times each: equal (kind, names) multisets (loops reduced to 'some loop')" % (nprog, k, k))
+                               "(one to three injected faults, plus statements naming several undeclared / non-constant names at once) compiled %d times each: equal (kind, names) multisets (loops reduced to 'some loop')" % (nprog, k, k))
     report.coverage["distribution"] = dict(res, **stats, **{"reject_" + k2: v for k2, v in bstats.items()})
     report.coverage["samples"] = [progs[0][0][:400]]
